@@ -234,7 +234,7 @@ func genDiagFrom(g *vlib.G) {
 	n := dimMax(g)
 	for _, ka := range all {
 		ka := ka
-		for _, state := range []string{"zero", "sized", "view", "wrong"} {
+		for _, state := range []string{"zero", "dirty", "sized", "view", "wrong"} {
 			state := state
 			g.Case(fmt.Sprintf("DiagFrom a=%s recv=%s", ka.name, state), func(t *vlib.T) {
 				var v verdict
@@ -251,6 +251,10 @@ func genDiagFrom(g *vlib.G) {
 						switch state {
 						case "zero":
 							d = &mat.DiagDense{}
+						case "dirty": // emptied after holding a larger diagonal: the old array (garbage) may be re-used
+							back = rpoisoned(l + 2)
+							d = mat.NewDiagDense(l+2, back)
+							d.Reset()
 						case "sized":
 							back = rpoisoned(l)
 							d = mat.NewDiagDense(l, back)
@@ -270,6 +274,12 @@ func genDiagFrom(g *vlib.G) {
 							for i := 0; i < l; i++ {
 								if got := d.At(i, i); !eqVal(got, a.val[i][i]) {
 									return fmt.Sprintf("diagonal element %d = %s want %v", i, vlib.B64(got), a.val[i][i])
+								}
+								// a non-empty receiver must be written through to the caller's storage
+								if state == "sized" || state == "view" {
+									if got := back[off+i*inc]; !eqVal(got, a.val[i][i]) {
+										return fmt.Sprintf("the receiver was detached: backing cell of diagonal element %d = %s want %v", i, vlib.B64(got), a.val[i][i])
+									}
 								}
 							}
 							for k, x := range back {
